@@ -3,13 +3,14 @@
     [C04_end_to_end] and [C04_end_to_end_v2] below, invariants of the two-chain world with honest Tendermint-like
     clients (header h carries the time of block h and the state after block h-1; heights of a chain increase,
     its times never decrease).
-    Partial for MsgTimeoutOnClose: the per-chain halves ([C04_timeout1_guards] covers its packet guards,
-    [C04_no_receive_after_elapsed], [C04_receipts_persist], [C04_honest_nonmembership]) are proved; the
-    two-chain composition for a closed channel is exercised by the `core` correspondence family and its
-    cross-chain monitor only. *)
+    MsgTimeoutOnClose (IBC v1): [C04_end_to_end_on_close], the same construction with the proof that the
+    counterparty channel end is CLOSED.  The per-chain halves ([C04_timeout1_guards], [C04_timeout2_guards],
+    [C04_no_receive_after_elapsed], [C04_receipts_persist], [C04_honest_nonmembership]) hold for arbitrary light
+    clients; the end-to-end theorems instantiate them with the honest clients of Core/World.v, which is also what
+    the `core` correspondence family runs against the real chains. *)
 From IBC Require Import Core.ChainExamples.
 From IBC Require Import Lib.Bytes Core.Height Core.HeightFacts Core.Chain Core.World Core.WorldFacts Core.ChainFacts Core.ChainInv Core.ChainThms
-  Core.WorldInv Core.WorldInv2 Core.WorldInv3 Core.WorldThm Core.WorldV2.
+  Core.WorldInv Core.WorldInv2 Core.WorldInv3 Core.WorldThm Core.WorldV2 Core.WorldClose.
 Local Open Scope N_scope.
 
 (** source side, v1: a timeout is processed only if the consensus state at the proof height exists, the
@@ -171,6 +172,46 @@ Example C04_end_to_end_v2_nonvacuous :
   WI2 (mkIW2 (mkIW exv ghost0 ghost0) ghost20 ghost20) /\ good_steps2 (mkIW2 (mkIW exv ghost0 ghost0) ghost20 ghost20) exv_steps /\
   map t2_src (h_tlog (ha (irun2 (mkIW2 (mkIW exv ghost0 ghost0) ghost20 ghost20) exv_steps))) = [(9, 1)].
 Proof. exact (conj exv_wi (conj exv_good exv_timeout_accepted)). Qed.
+
+(** *** end to end (MsgTimeoutOnClose, IBC v1).  [irun3] additionally logs the accepted MsgTimeoutOnClose messages
+    ([ca], [cb]: source key, destination key, ordering of the sending end, light client used); [WI3] extends [WI2].
+    An accepted MsgTimeoutOnClose on one chain and an accepted MsgRecvPacket under the packet's destination key on the
+    other chain never both occur, whichever comes first: before the proven version the receipt would contradict the
+    absence proof, after it the channel end is CLOSED for good and refuses the receive. *)
+Theorem C04_end_to_end_on_close x l :
+  WI3 x -> good_steps3 x l ->
+  let y := irun3 x l in
+  let lh := w_lh (iw (iw1 (iw2 y))) in
+  (forall e r, In e (ca y) -> In r (g_rlog (gb (iw1 (iw2 y)))) ->
+     ce_client e <> lh -> r_client r <> lh -> ce_dst e = r_dst r -> ce_ord e = r_ord r -> False) /\
+  (forall e r, In e (cb y) -> In r (g_rlog (ga (iw1 (iw2 y)))) ->
+     ce_client e <> lh -> r_client r <> lh -> ce_dst e = r_dst r -> ce_ord e = r_ord r -> False).
+Proof. exact (timeout_on_close_excludes_receive x l). Qed.
+Print Assumptions C04_end_to_end_on_close.
+
+Theorem C04_invariant_initially_on_close w :
+  base_chain (wa w) -> base_chain (wb w) -> base_clients (wa w) (wb w) -> base_clients (wb w) (wa w) ->
+  WI3 (mkIW3 (mkIW2 (mkIW w ghost0 ghost0) ghost20 ghost20) [] []).
+Proof. exact (wi3_base w). Qed.
+Print Assumptions C04_invariant_initially_on_close.
+
+Theorem C04_ghosts_do_not_influence_on_close x l : iw2 (irun3 x l) = irun2 (iw2 x) l.
+Proof. exact (irun3_iw2 x l). Qed.
+Print Assumptions C04_ghosts_do_not_influence_on_close.
+
+Theorem C04_log_records_accepted_on_close g pre o out e :
+  In e (gupd3 g pre o out) -> In e g \/
+  exists p ph nsr rl ch kk, out = Ok /\ packet_of o = Some (OTimeoutOnClose1 p ph nsr rl) /\
+    chan_conn pre (p_sp p, p_sc p) = Some (ch, kk) /\
+    e = mkCE (p_sp p, p_sc p, p_seq p) (p_dp p, p_dc p, p_seq p) (c_ord ch) (k_client kk).
+Proof. exact (gupd3_in g pre o out e). Qed.
+Print Assumptions C04_log_records_accepted_on_close.
+
+(** non-vacuity (on close): send on A, the channel end on B is closed, B's next block, client update on A,
+    MsgTimeoutOnClose on A with honest proofs of version 11 (closed channel end, absent receipt): accepted and logged *)
+Example C04_end_to_end_on_close_nonvacuous :
+  WI3 exc0 /\ good_steps3 exc0 exc_steps /\ map ce_dst (ca (irun3 exc0 exc_steps)) = [(1, 20, 1)].
+Proof. exact (conj exc_wi (conj exc_good (proj1 exc_accepted))). Qed.
 
 (** non-vacuity: a concrete state satisfies the invariant and a concrete 13-step history (duplicates, a failing
     application, an ORDERED timeout, multi-payload v2 receives) produces exactly the expected callbacks *)
